@@ -1,0 +1,48 @@
+//go:build verif
+
+// Contracts for the root package (flag wiring), checked by /verif/govc (comment-only file).
+package fingerproxy
+
+//@ func parseHTTPIdleTimeout :: -> d
+//@   props C11
+//@   requires flagTimeoutHTTPIdle != nil && DefaultLog != nil
+//@   assigns nothing
+//@   ensures [C11:idle-flag] d == durationOf(deref(flagTimeoutHTTPIdle))
+
+//@ func parseHTTPReadTimeout :: -> d
+//@   props C11
+//@   requires flagTimeoutHTTPRead != nil && DefaultLog != nil
+//@   assigns nothing
+//@   ensures d == durationOf(deref(flagTimeoutHTTPRead))
+
+//@ func parseHTTPWriteTimeout :: -> d
+//@   props C11
+//@   requires flagTimeoutHTTPWrite != nil && DefaultLog != nil
+//@   assigns nothing
+//@   ensures d == durationOf(deref(flagTimeoutHTTPWrite))
+
+//@ func parseTLSHandshakeTimeout :: -> d
+//@   props C11
+//@   requires flagTimeoutTLSHandshake != nil && DefaultLog != nil
+//@   assigns nothing
+//@   ensures [C11:handshake-flag] d == durationOf(deref(flagTimeoutTLSHandshake))
+
+//@ func parseReverseProxyFlushInterval :: -> d
+//@   props C08
+//@   requires flagReverseProxyFlushInterval != nil && DefaultLog != nil
+//@   assigns nothing
+
+//@ func defaultProxyServer :: ctx, handler, tlsConfig -> svr
+//@   props C11
+//@   requires flagTimeoutHTTPIdle != nil && flagTimeoutHTTPRead != nil && flagTimeoutHTTPWrite != nil && flagTimeoutTLSHandshake != nil && flagVerboseLogs != nil && DefaultLog != nil
+//@   assigns nothing
+//@   ensures [C11:h1-idle-timeout-wired] svr != nil && svr.HTTPServer != nil && svr.HTTPServer.IdleTimeout == durationOf(deref(flagTimeoutHTTPIdle))
+//@   ensures [C11:h2-idle-timeout-wired] svr.HTTP2Server != nil && svr.HTTP2Server.IdleTimeout == durationOf(deref(flagTimeoutHTTPIdle))
+//@   ensures [C11:handshake-timeout-wired] svr.TLSHandshakeTimeout == durationOf(deref(flagTimeoutTLSHandshake))
+
+//@ func defaultReverseProxyHTTPHandler :: forwardTo, headerInjectors -> h
+//@   props C15,C08
+//@   requires flagPreserveHost != nil && flagEnableKubernetesProbe != nil && flagReverseProxyFlushInterval != nil && DefaultLog != nil
+//@   ensures [C15:probe-flag-wired] isptr(reverseproxy.HTTPHandler, h) && unboxptr(reverseproxy.HTTPHandler, h) != nil && unboxptr(reverseproxy.HTTPHandler, h).IsProbeRequest == ite(deref(flagEnableKubernetesProbe), reverseproxy.IsKubernetesProbeRequest, nil)
+//@   ensures [C08:preserve-host-flag-wired] unboxptr(reverseproxy.HTTPHandler, h).PreserveHost == deref(flagPreserveHost)
+//@   ensures [C08:injectors-passed] unboxptr(reverseproxy.HTTPHandler, h).HeaderInjectors == headerInjectors && unboxptr(reverseproxy.HTTPHandler, h).To == forwardTo
